@@ -463,6 +463,7 @@ fn capture(in_path: &str, out_dir: &str, stages: bool) {
             "u8": u8cls,
             "prio": prio,
             "kind": kinds,
+            "vname": leaves.iter().map(|l| l.variant.clone().unwrap_or_default()).collect::<Vec<_>>(),
             "g": g_tla,
             "ref": ref_tla,
             "ties": ties,
